@@ -305,10 +305,24 @@ func main() {
 	quick := env.Tier != "thorough" && !env.Deep
 	deadline := time.Now().Add(budget)
 	r := vlib.NewRand(env.Seed).Fork()
-	for i := 0; i < 200 && (i < 2 || time.Now().Before(deadline)); i++ {
-		p := params{Seed: r.Uint64() >> 1, N: r.Range(2000, 20000), Rounds: r.Range(10, 40), Cmp: i%2 == 1}
-		if quick {
-			p.N, p.Rounds = r.Range(400, 3000), r.Range(4, 12)
+	// the corpus first: one JSON object of parameters per *.race file
+	var corpus []params
+	for _, f := range vlib.CorpusFiles(env.Corpus, ".race") {
+		var p params
+		if json.Unmarshal([]byte(strings.Join(vlib.ReadLines(f), " ")), &p) == nil && p.N >= classes {
+			corpus = append(corpus, p)
+		}
+	}
+	for i := 0; i < 200+len(corpus) && (i < 2+len(corpus) || time.Now().Before(deadline)); i++ {
+		var p params
+		if i < len(corpus) {
+			p = corpus[i]
+			res.Count("corpus")
+		} else {
+			p = params{Seed: r.Uint64() >> 1, N: r.Range(2000, 20000), Rounds: r.Range(10, 40), Cmp: i%2 == 1}
+			if quick {
+				p.N, p.Rounds = r.Range(400, 3000), r.Range(4, 12)
+			}
 		}
 		kind, what := runChild(p)
 		res.Case(fmt.Sprintf("%+v", p), true, p)
